@@ -297,7 +297,7 @@ pub fn gen(tier: &str, rng: &mut Rng, out: &mut Vec<String>) {
             }
         };
         let has_other = t.iter().any(|&c| c != *t.last().unwrap());
-        let flag = if has_other && rng.chance(1, 2) { "n" } else { "f" };
+        let flag = if has_other && *t.last().unwrap() == b'$' && rng.chance(1, 2) { "n" } else { "f" };
         let big = t.len() > 200;
         let ss: Vec<usize> = if big { vec![*rng.pick(&S_RATES), 16] } else { S_RATES.to_vec() };
         let mut ks: Vec<usize> = vec![*rng.pick(&K_RATES[..5]), *rng.pick(&K_RATES[5..])];
